@@ -21,7 +21,6 @@ import (
 	"io"
 	"net"
 	"net/http"
-	"os"
 	"sort"
 	"strings"
 	"sync"
@@ -48,7 +47,7 @@ type c02LBConf struct {
 var c02LBConfs = []c02LBConf{
 	{T: 2000, MC: 0, MB: 32}, // 0: immediate handlers only (1.8 s of slack before any deadline)
 	{T: 0, MC: 2, MB: 16},    // 1: timeout off: immediate handlers and the MaxConns scenario
-	{T: 150, MC: 0, MB: 0},   // 2: handlers that outlive the route timeout by construction
+	{T: 400, MC: 0, MB: 0},   // 2: handlers that outlive the route timeout by construction
 }
 
 type c02LBCase struct {
@@ -79,27 +78,6 @@ var (
 		Timeout:       60 * time.Second,
 	}
 )
-
-func init() {
-	// HARNESS_GUIDE "Known" procedure: the driver pins VERIF_KNOWN to the committed
-	// list, which harness authors must not edit; a private list in
-	// /verif/.work/C02-known.txt (if present) is appended here, before the kit reads it.
-	const private = "/verif/.work/C02-known.txt"
-	pb, err := os.ReadFile(private)
-	if err != nil {
-		return
-	}
-	ob, _ := os.ReadFile(os.Getenv("VERIF_KNOWN"))
-	f, err := os.CreateTemp(os.Getenv("VERIF_WORK"), "c02-known-*.txt")
-	if err != nil {
-		return
-	}
-	f.Write(ob)
-	f.Write([]byte("\n"))
-	f.Write(pb)
-	f.Close()
-	os.Setenv("VERIF_KNOWN", f.Name())
-}
 
 func c02LBHandler(w http.ResponseWriter, r *http.Request) {
 	v, ok := c02LBReqs.Load(r.Header.Get("X-C02-Id"))
@@ -167,6 +145,7 @@ func c02LBServer(i int) (int, error) {
 }
 
 type c02LBResp struct {
+	took time.Duration // client side: from before connecting until the response (or the error) was in
 	err  error
 	code int
 	hdr  http.Header
@@ -175,7 +154,7 @@ type c02LBResp struct {
 
 func (r c02LBResp) String() string {
 	if r.err != nil {
-		return "transport error (no HTTP response): " + r.err.Error()
+		return fmt.Sprintf("transport error (no HTTP response) after %v: %v", r.took.Round(time.Millisecond), r.err)
 	}
 	return fmt.Sprintf("status %d, marker headers %v, body %q", r.code, c02Markers(r.hdr), r.body)
 }
@@ -188,16 +167,17 @@ func c02LBDo(port int, route int64, q *c02LBReq, bodyLen int) c02LBResp {
 		return c02LBResp{err: err}
 	}
 	req.Header.Set("X-C02-Id", fmt.Sprint(q.id))
+	t0 := time.Now()
 	resp, err := c02LBClient.Do(req)
 	if err != nil {
-		return c02LBResp{err: err}
+		return c02LBResp{err: err, took: time.Since(t0)}
 	}
 	defer resp.Body.Close()
 	b, err := io.ReadAll(resp.Body)
 	if err != nil {
-		return c02LBResp{err: err}
+		return c02LBResp{err: err, took: time.Since(t0)}
 	}
-	return c02LBResp{code: resp.StatusCode, hdr: resp.Header, body: b}
+	return c02LBResp{code: resp.StatusCode, hdr: resp.Header, body: b, took: time.Since(t0)}
 }
 
 func c02LBNew(prog []c02Step) *c02LBReq {
@@ -328,6 +308,12 @@ func c02LBRun(c c02LBCase) (v kit.Verdict) {
 			cls["panic"] = true
 			v.NonTrivial = true
 		}
+		if cf.T > 0 && r.took >= time.Duration(cf.T)*time.Millisecond/2 {
+			// the machine stalled for half the route timeout: "returns at once" no longer describes this run
+			cls["machine-stalled"] = true
+			v.Excluded = true
+			return v
+		}
 		if s := c02LBOwn(q, r); s != "" {
 			return v.Failf("loopback server %+v, handler returns at once: want its own response: %s; got %s", cf, s, r)
 		}
@@ -342,8 +328,16 @@ func c02LBRun(c c02LBCase) (v kit.Verdict) {
 		if p.panics {
 			cls["panic-after-deadline"] = true
 		}
+		if r.err != nil && r.took >= time.Duration(cf.T)*time.Millisecond*11/10 {
+			// The connection died later than 10 % after the route timeout: a stalled
+			// machine cannot be told apart from a server that drops the response.
+			cls["machine-stalled"] = true
+			v.Excluded = true
+			return v
+		}
 		if r.err != nil {
-			// the client was left without any response
+			// the client was left without any response although the server gave up on the
+			// connection within 10 % of the route timeout after the request was sent
 			v.Known = c02KnownWriteDeadline
 			cls["no-response-at-route-timeout"] = true
 			return v.Failf("loopback server %+v, handler blocks until its context is done: want the timeout response (503); got %s", cf, r)
@@ -364,6 +358,11 @@ func c02LBRun(c c02LBCase) (v kit.Verdict) {
 	case "toobig":
 		q := c02LBNew(c.P)
 		r := c02LBDo(port, route, q, int(cf.MB)+c.X)
+		if cf.T > 0 && r.took >= time.Duration(cf.T)*time.Millisecond/2 {
+			cls["machine-stalled"] = true
+			v.Excluded = true
+			return v
+		}
 		if r.err != nil || r.code != http.StatusRequestEntityTooLarge {
 			return v.Failf("loopback server %+v, Content-Length %d: want 413; got %s", cf, int(cf.MB)+c.X, r)
 		}
